@@ -412,6 +412,30 @@ pub fn run_check(spec: &CheckSpec, tier: &str, seed: u64) -> i32 {
                     let _ = std::fs::remove_file(&min_path);
                 }
             }
+            // The plan was shrunk inside this long-lived process.  If the library keeps process-wide state, a
+            // candidate can "still fail" only because of what earlier executions left behind, and the shrunk
+            // plan lost the steps that set that state up.  Second attempt: does the unshrunk plan show the
+            // violation in a process of its own?  Then shrink it with every candidate run in a fresh child.
+            if !in_child {
+                if let Some(rep) = run_plan_in_child(&plan) {
+                    if rep.violations.iter().any(|x| x.property == v.property && x.key == v.key) {
+                        let min_plan = shrink::minimise_in_children(&plan, &v.property, &v.key, 60);
+                        let min_rep = run_plan_in_child(&min_plan).unwrap_or_default();
+                        let mv = min_rep.violations.iter().find(|x| x.property == v.property && x.key == v.key).cloned().unwrap_or_else(|| v.clone());
+                        write_replay(&min_path, &mv, &min_plan, &min_rep.events);
+                        let exe = std::env::current_exe().expect("exe");
+                        let status = std::process::Command::new(exe).arg("replay").arg(&min_path).stdout(std::process::Stdio::null()).status();
+                        if let Ok(Some(1)) = status.map(|s| s.code()) {
+                            println!("violation: property={} oracle={} key={} ({} occurrences; this one at {} run {}; depends on process-wide history, minimised in fresh child processes {} -> {} ops): {}", spec.property, mv.oracle, key, hits.len(), profile, idx, plan.ops.len(), min_plan.ops.len(), mv.detail);
+                            println!("VIOLATION property={} replay={}", spec.property, min_path.display());
+                            violation_lines += 1;
+                            reported = true;
+                            break;
+                        }
+                        let _ = std::fs::remove_file(&min_path);
+                    }
+                }
+            }
         }
         if !reported {
             eprintln!("HARNESS ERROR: violation class key={} ({} occurrences, first: {}) was observed but none of its replays reproduces in a fresh process: {}", key, hits.len(), v0.detail, last_err);
